@@ -34,6 +34,7 @@ type Behaviour struct {
 	DropPermille           int // never answer a query
 	DupPermille            int // answer twice
 	BogusPermille          int // additionally emit an answer carrying an id nobody asked
+	CloseOnHandshake       bool // new connections: read the 256-byte handshake, then close in an orderly way
 	JunkPermille           int // additionally emit an unrelated packet (unknown magic, short answer, unsolicited pong)
 	NoPong                 bool
 	HoldInfoAfter          int // per connection: answers to getMasterchainInfo after this many are held ...
@@ -98,6 +99,8 @@ type Server struct {
 	extraDelay  time.Duration // set by an answer builder: this answer becomes sendable later
 	// DupNext, when non-zero, makes the next answer go out with this many extra copies. One-shot.
 	DupNext int
+	// MinSeqno: lookups below it are answered with "not in db" (the server is not an archive node)
+	MinSeqno uint32
 	// LieOuterLen, when non-zero, makes the next adnl.message.answer declare this many answer bytes
 	// while carrying the real (shorter) ones. One-shot.
 	LieOuterLen int
@@ -146,6 +149,14 @@ func (s *Server) OnBytes(c *core.Conn, b []byte) {
 		if err != nil {
 			st.dead = true
 			s.W.Logf("srv%d: handshake rejected on %s: %v", s.Index, c.Name, err)
+			c.ServerClose(0)
+			return
+		}
+		if s.Beh.CloseOnHandshake {
+			// the server process is shutting down / restarting: it reads the handshake and closes in an orderly way
+			st.dead = true
+			s.W.Probe("closed-on-handshake")
+			s.W.Net.Fired["close-on-handshake"]++
 			c.ServerClose(0)
 			return
 		}
@@ -473,6 +484,11 @@ func (s *Server) liteAnswer(c *core.Conn, q []byte) []byte {
 		}
 		if seqno > s.Head {
 			return s.ErrorAnswer(651, "block is not applied")
+		}
+		if seqno < s.MinSeqno {
+			// not an archive node: blocks from before its horizon are gone
+			s.W.Probe("lookup-of-a-block-below-the-horizon")
+			return s.ErrorAnswer(651, "block is not in db")
 		}
 		w.U32(s.Sch.ID("liteServer.blockHeader"))
 		s.blockIDExt(w, seqno)
